@@ -99,16 +99,23 @@ func hasNested(c Case) bool {
 	return false
 }
 
-// check returns the violations of one observed run (at most one: the first rule that fails, so
-// that one cause gets one class).
+// check returns the violations of one observed run: at most one protocol violation (the first
+// rule that fails, so that one cause gets one class), plus "panic-escapes" when the call did not
+// return at all (then the rules about the returned error are not applicable).
 func check(c Case, o *Obs) []verdict {
+	var out []verdict
+	if o.DidEscape {
+		out = append(out, verdict{"panic-escapes:" + bodyTag(c, o),
+			fmt.Sprintf("Transact did not return: panic value %#v escaped instead of being reported as an error", o.Escaped)})
+	}
+	return append(out, checkProtocol(c, o, !o.DidEscape)...)
+}
+
+func checkProtocol(c Case, o *Obs, returned bool) []verdict {
 	one := func(class, format string, a ...any) []verdict {
 		return []verdict{{class, fmt.Sprintf(format, a...)}}
 	}
 	tag := bodyTag(c, o)
-	if o.DidEscape {
-		return one("panic-escapes:"+tag, "Transact did not return: panic value %#v escaped instead of being reported as an error", o.Escaped)
-	}
 	if o.BodyRuns > 1 {
 		return one("body-run-more-than-once", "the body ran %d times", o.BodyRuns)
 	}
@@ -126,7 +133,7 @@ func check(c Case, o *Obs) []verdict {
 		if count(all, "commit")+count(all, "rollback") > 0 {
 			return one("termination-without-begin", "Commit/Rollback issued although no transaction had been begun")
 		}
-		if o.Err == nil {
+		if returned && o.Err == nil {
 			return one("nil-error-without-begin", "nil returned although no transaction was begun (so none was committed)")
 		}
 		if c.Begin == "ok" && c.Ctx != "pre" {
@@ -144,7 +151,7 @@ func check(c Case, o *Obs) []verdict {
 		if len(all) > 1 {
 			return one("ops-after-begin-failure", "driver calls after the failed Begin: %v", all[1:])
 		}
-		if o.Err == nil {
+		if returned && o.Err == nil {
 			return one("nil-error-after-begin-failure", "nil returned although Begin failed")
 		}
 		return nil
@@ -186,6 +193,12 @@ func check(c Case, o *Obs) []verdict {
 		}
 		return one("rollback-after-success", "rolled back although the body returned nil")
 	}
+	if o.InUse != 0 {
+		return one("conn-not-released", "%d connection(s) still held by the transaction after Transact returned", o.InUse)
+	}
+	if !returned {
+		return nil
+	}
 	commitOK := t[0] == "commit" && !o.HitCommit
 	if o.Err == nil && !commitOK {
 		why := tag
@@ -209,9 +222,6 @@ func check(c Case, o *Obs) []verdict {
 			k = "panic"
 		}
 		return one("rollback-error-not-reported:"+k, "Rollback failed with %q but the returned error %q does not carry it", errRollback, o.Err.Error())
-	}
-	if o.InUse != 0 {
-		return one("conn-not-released", "%d connection(s) still held by the transaction after Transact returned", o.InUse)
 	}
 	return nil
 }
